@@ -253,6 +253,22 @@ func lsWaitSelfTest() error {
 		{"receives from the done channel under the lock its closer takes", "\tn := s.n\n\ts.mu.Unlock()\n\t_ = n\n\t<-s.done\n", "\tn := s.n\n\t_ = n\n\t<-s.done\n\ts.mu.Unlock()\n", true, "ch:p.Srv.done"},
 		{"releases before receiving (the base order, written with defer in a helper)", "\t_ = n\n\t<-s.done\n", "\t_ = n\n\ts.recv()\n}\n\nfunc (s *Srv) recv() {\n\t<-s.done\n", false, ""},
 	}
+	// what the wait tracking cannot follow must be reported, not skipped
+	for _, u := range []struct{ name, old, new, fn string }{
+		{"WaitGroup handed to a helper", "func (s *Srv) join() {\n\ts.wg.Wait()\n}", "func (s *Srv) join() {\n\twaitFor(&s.wg)\n}\n\nfunc waitFor(g *sync.WaitGroup) {\n\tg.Wait()\n}", "p.Srv.join"},
+		{"wait inside a deferred literal", "func (s *Srv) join() {\n\ts.wg.Wait()\n}", "func (s *Srv) join() {\n\tdefer func() {\n\t\ts.wg.Wait()\n\t}()\n}", "p.Srv.join"},
+	} {
+		if strings.Count(lsSelfWait, u.old) != 1 {
+			return fmt.Errorf("wait mutant %q: anchor not unique", u.name)
+		}
+		o, err := lsRunWaitSnippet(strings.Replace(lsSelfWait, u.old, u.new, 1))
+		if err != nil {
+			return fmt.Errorf("wait mutant %q: %v", u.name, err)
+		}
+		if !lsHasLeak(o, u.fn, "not followed") {
+			return fmt.Errorf("wait mutant %q: not reported as not followed: %+v", u.name, o.leaks)
+		}
+	}
 	for _, m := range muts {
 		if strings.Count(lsSelfWait, m.old) != 1 {
 			return fmt.Errorf("wait mutant %q: anchor not unique", m.name)
